@@ -75,8 +75,14 @@ def menu_entry(k):
     if kind == "blocks":
         m["entry"] = r.choice(["plain", "plain", "ad_nosr_norot", "ad_norot", "ad_norot"])
         m["n_sr_blocks"] = r.choice([1, 2, 3])
-        if random.Random(9100 + k).random() < 0.4:
-            # entry points without reconfiguration count a dead walker again in every later energy block
+        r91 = random.Random(9100 + k)
+        if r91.random() < 0.35:
+            # entry points without reconfiguration count a dead walker again in every later energy block, and divide by
+            # n_sr_blocks x n_ene_blocks x n_walkers although they run n_ene_blocks blocks only
+            m["entry"] = r91.choice(["ad_nosr_norot", "ad_nosr"])
+            m["n_sr_blocks"] = r91.choice([1, 1, 2])
+            m["n_ene_blocks"] = r91.choice([2, 4])
+        elif r91.random() < 0.4:
             m["n_ene_blocks"] = 4
     if kind == "driver":
         m.update(R=r.choice([1, 2, 3]), n_blocks=r.choice([2, 3]), n_sr_blocks=r.choice([1, 2]), n_eql=1, n_ene_blocks_eql=1, n_sr_blocks_eql=r.choice([1, 2]),
@@ -129,6 +135,13 @@ def gen_cfg(seed, index, tier):
         m["n_calls"] = rng.choice([2, 3, 4])
         per = m["n_prop_steps"] * m["n_ene_blocks"] * m["n_sr_blocks"]
         m["faults"] = _gen_faults(rng, m, per * m["n_calls"])
+        if m["entry"].startswith("ad_nosr") and random.Random(seed + 91).random() < 0.6:
+            # most of the population overflows in the first steps of the call: without reconfiguration they stay dead
+            # through every later energy block
+            rk = random.Random(seed + 92)
+            hit = rk.sample(range(m["n_walkers"]), max(1, min(lab.N_FAULT_SLOTS, (3 * m["n_walkers"] + 3) // 4)))
+            ncomp = m.get("nchol") or m.get("n_sites")
+            m["faults"] = [dict(step=rk.randrange(2), walker=w, comp=rk.randrange(ncomp), value=1e100, mode=0) for w in hit]
     else:
         m["faults_by_rank"] = {str(r): _gen_faults(rng, m, 50 * m["n_sr_blocks_eql"] + 6, nslots=4) for r in range(m["R"])}
         # "a node loses its whole population": every walker of one rank receives an
